@@ -424,9 +424,13 @@ def run_torch_tool(ns, env, options, hooks=None):
 
 
 def uid(u, n):
-    """utterance id of map line u: NOT in lexicographic order (utt1, utt2, ..., utt0), so that file order, sorted order and
-    list position are distinguishable"""
-    return 'utt%d' % ((u + 1) % n) if n > 1 else 'utt0'
+    """utterance id of map line u: NOT in lexicographic order (..., utt2, ..., utt0), so that file order, sorted order
+    and list position are distinguishable; and the first id CONTAINS the second one as a substring ('autt2' / 'utt2'),
+    so that matching manifest lines by anything weaker than equality shows"""
+    if n <= 1:
+        return 'utt0'
+    base = 'utt%d' % ((u + 1) % n)
+    return 'a' + 'utt%d' % (2 % n) if u == 0 else base
 
 
 def make_options(env, seed, channel, manifest, num_workers=0):
